@@ -74,6 +74,8 @@ func (s *Step) String() string {
 			return fmt.Sprintf("edit rand %q (%d pseudo-random bytes, seed %q)", s.Edit.Path, s.Edit.MTime, s.Edit.Data)
 		case "symlink":
 			return fmt.Sprintf("edit symlink %q -> %q", s.Edit.Path, s.Edit.Data)
+		case "hardlink":
+			return fmt.Sprintf("edit hardlink %q = %q", s.Edit.Path, s.Edit.Data)
 		case "chmod":
 			return fmt.Sprintf("edit chmod %o %q", s.Edit.MTime, s.Edit.Path)
 		}
@@ -526,6 +528,10 @@ func applyEdit(sb *sandbox.Sandbox, e *Edit) {
 		os.MkdirAll(filepath.Dir(p), 0o777)
 		os.Remove(p)
 		os.Symlink(string(e.Data), p)
+	case "hardlink": // Data = path (relative to the working tree) of the existing file this becomes another name of
+		os.MkdirAll(filepath.Dir(p), 0o777)
+		os.Remove(p)
+		os.Link(filepath.Join(sb.W(), string(e.Data)), p)
 	case "rand": // MTime bytes of a generator seeded by Data: big files without big witnesses
 		os.MkdirAll(filepath.Dir(p), 0o777)
 		os.WriteFile(p, RandBytes(string(e.Data), e.MTime), 0o666)
@@ -572,6 +578,9 @@ func (w *World) Chmod(path string, mode int64) *Step {
 
 // Symlink creates a symbolic link in the working tree (the target may dangle).
 func (w *World) Symlink(path, target string) *Step { return w.Edit("symlink", path, []byte(target)) }
+
+// Hardlink makes path another name of the existing working file target (both relative to the working tree).
+func (w *World) Hardlink(path, target string) *Step { return w.Edit("hardlink", path, []byte(target)) }
 
 // EditRand writes size pseudo-random bytes determined by seed.
 func (w *World) EditRand(path, seed string, size int64) *Step {
